@@ -13,7 +13,8 @@ so a variable of an enclosing function (a closure "nonlocal") hides a module glo
 own scoping, which eager execution follows.  `Converter._lookup` consults the function's local scopes first and
 `env` last; a Python constant found there is emitted as a `Constant` (`_to_onnx_var` → `_emit_const`).  The model
 resolves such names before translation (`resolveEnv`): a name that is neither a parameter nor assigned anywhere
-in the function and has a constant in `env` is replaced by that constant.
+in the function (those are local: c2aeb08, formerly finding C01-D42) and has a constant in `env` is replaced by
+that constant.
 -/
 namespace OV.C01
 
@@ -61,10 +62,15 @@ def substBlock (env : Name → Option Lit) (bound : VSet) : List Stmt → List S
   | s :: ss => substStmt env bound s :: substBlock env bound ss
 end
 
+/-- Names that are local to the function, as in Python: its parameters and every name assigned anywhere in its
+body (`Converter._function_locals`, c2aeb08: `_lookup` never consults the surroundings for them, not even on a path
+that has not assigned them yet). -/
+def resolveBound (f : Func) : VSet :=
+  vunion (vofList (f.params.map Param.name)) ((assignedBlock f.body).getD [])
+
 /-- The function as the converter sees it given the closure variables and module globals that hold Python
-constants: free names resolved closure-first. -/
+constants: free names resolved closure-first, local names never. -/
 def resolveEnv (nonlocals globals : List (Name × Lit)) (f : Func) : Func :=
-  let bound := vunion (vofList (f.params.map Param.name)) ((assignedBlock f.body).getD [])
-  { f with body := substBlock (envLookup nonlocals globals) bound f.body }
+  { f with body := substBlock (envLookup nonlocals globals) (resolveBound f) f.body }
 
 end OV.C01
